@@ -65,8 +65,8 @@ def spec_items(kind):
         items.append(((Bf, Li), (), eq(("idx", levels, add(i, K(1))), add(("idx", levels, i), app("Select", m, ("idx", times, i))))))
     else:
         x = ("z3var", "Int", ("fstr", (K("t_"), A(b, "name"), K("_variable"))))
-        fu = lambda t: ("z3func", ("fstr", (A(b, "name"), K("_"), A(t, "name"), K("_quantity_unloading"))))
-        fl = lambda t: ("z3func", ("fstr", (A(b, "name"), K("_"), A(t, "name"), K("_quantity_loading"))))
+        fu = lambda t: ("z3func", ("tuple", (K("unloading"), A(b, "name"), A(t, "name"))))
+        fl = lambda t: ("z3func", ("tuple", (K("loading"), A(b, "name"), A(t, "name"))))
         items.append(((Bf, Lu), (), app("ForAll", x, If(eq(x, A(tu, "_start")), eq(app("apply", fu(tu), x), app("neg", ("idx", A(b, "_unloading_tasks"), tu))),
                                                         eq(app("apply", fu(tu), x), K(0))))))
         items.append(((Bf, Ll), (), app("ForAll", x, If(eq(x, A(tl, "_end")), eq(app("apply", fl(tl), x), ("idx", A(b, "_loading_tasks"), tl)),
@@ -95,7 +95,17 @@ def r_buf_encoding(ctx):
         # the kind test itself is a path condition, not a guard of the emitted items
         def strip(gs):
             return tuple(g for g in gs if "isinstance" not in show(g))
-        stream = [(l, strip(g), t) for l, g, t in stream]
+        def canon_func_names(t):
+            # the name template of a quantity function is C14's business; here only its kind and its index holes matter
+            def f(x):
+                if x[0] == "z3func":
+                    txt = show(x[1])
+                    kind_ = "unloading" if "unloading" in txt else "loading" if "loading" in txt else "?"
+                    holes = tuple(sorted((p_ for p_ in (x[1][1] if x[1][0] == "fstr" else ()) if not is_const(p_)), key=show))
+                    return ("z3func", ("tuple", (K(kind_),) + holes))
+                return None
+            return rewrite(t, f)
+        stream = [(l, strip(g), canon_func_names(t)) for l, g, t in stream]
         compare_groups(ctx, "R-BUF-ENCODING", where, "processscheduler/solver.py", stream, spec_items(kind),
                        f"{kind} buffer [{describe_config(run)[:90]}]")
     if seen != {"NonConcurrent", "Concurrent"}:
@@ -222,9 +232,10 @@ def r_sort_net(ctx):
                 cond, th, el = body[2], body[3], body[4]
                 from sa.decide import canon_atom
                 ca = canon_atom(cond)
-                x, y = (cond[2], cond[3]) if is_app(cond) and cond[1] in ("<=", "<") else (None, None)
+                x, y = (cond[2], cond[3]) if is_app(cond) and cond[1] in ("<=", "<") else \
+                    (cond[3], cond[2]) if is_app(cond) and cond[1] in (">=", ">") else (None, None)
                 ok = x is not None and x[0] == "idx" and y[0] == "idx" and canon(y[2]) == canon(add(x[2], K(1))) and x[1] == y[1] \
-                    and cond[1] == "<="
+                    and cond[1] in ("<=", ">=")
                 if ok:
                     x1, y1 = None, None
                     # which fresh constant is stored at i and which at i + 1
